@@ -203,7 +203,9 @@ def oracle(bonds_in, n, uff, exclude, obs):
             continue
         for t, k in zip(types, keys):
             with o, e:
-                p = fn(*k)
+                # a fresh "unknown bond orders" argument for every evaluation: the expected value depends on the sequence only,
+                # never on what was evaluated before
+                p = fn(*k) if name == "bond" else fn(*k, bond_orders=[None, None])
             if name == "bond":
                 want = '%10.6f %10.6f # %s %s' % (*p, *k)
             else:
